@@ -169,6 +169,37 @@ def run(chk):
                     pat.append("d")
             tabs.append(build_table(cfg, side, tuple(pat), masked, rnd, dom, alt=(s % 5 == 0)))
         add({"kind": "join", "grp": "join-sampled", "masked": masked, "headers": headers(cfg), "A": tabs[0], "B": tabs[1]})
+    # the compiled (secure) join: the same relational semantics, any protocol randomness; it may abort (hash failure) but
+    # must never return a wrong table. Tables with many live rows and large key overlaps, many seeds per table.
+    ncomp, nseeds = (6, 40) if quick else (40, 200)
+    comp_rnd = random.Random(chk.seed * 31 + 5)
+    for s in range(ncomp):
+        cname = list(CONFIGS)[s % len(CONFIGS)]
+        cfg = CONFIGS[cname]
+        masked = s % 2
+        dom = cfg["dom"] + cfg["more"]
+        tabs = []
+        common = list(range(len(dom)))
+        comp_rnd.shuffle(common)
+        for side in (0, 1):
+            n = 8 if s % 3 else 5
+            ks = list(common)             # both tables draw their keys from the same order: large intersections
+            pat = []
+            for r in range(n):
+                x = comp_rnd.random()
+                if x < 0.1:
+                    pat.append("d")
+                elif masked and x < 0.2:
+                    pat.append("m")
+                elif ks:
+                    pat.append(ks.pop())
+                else:
+                    pat.append("d")
+            comp_rnd.shuffle(pat)
+            tabs.append(build_table(cfg, side, tuple(pat), masked, comp_rnd, dom, alt=False))
+        for k in range(nseeds):
+            add({"kind": "join", "grp": "join-compiled", "masked": masked, "headers": headers(cfg), "A": tabs[0], "B": tabs[1],
+                 "compiled": chk.seed % 1000 + 1000 * s + k})
     add({"kind": "claims", "grp": "claims", "claims": claims})
 
     recs, bad = bc.run_rel(chk, jobs, "join", workers=bc.workers(4 if quick else 8), timeout=1500 if quick else 9000)
@@ -178,7 +209,13 @@ def run(chk):
             raise lib.ToolError("exhaustive group incomplete: %s" % v)
         jt = v["at"] if isinstance(v["at"], str) else v["why"]
         sig = {"join": jt, "masked": rec["masked"], "second_table_first_column": "null" if job["B"][0]["name"] == "null" else "other",
-               "why": "outcome" if isinstance(v["at"], str) else "table", "column": None if isinstance(v["at"], str) else v["at"][0]}
+               "why": "outcome" if isinstance(v["at"], str) else "table", "column": None if isinstance(v["at"], str) else v["at"][0],
+               "compiled": rec.get("compiled", 0)}
+        if sig["compiled"]:
+            # position of the null column and of the key columns in the first table decides the compiled column order
+            sig["first_table_starts_with_null_then_keys"] = int([c["name"] for c in job["A"]][:1 + len(job["headers"])] ==
+                                                                ["null"] + [h[0] for h in job["headers"]])
+            sig.pop("second_table_first_column")
         chk.violation(sig, {"cmd": "rel", "jobs_file": chk.path("jobs_join.ndjson"), "job_id": rec["id"], "verdict": v, "job": job, "returned": rec["res"].get(jt)})
     per = {}
     for r in recs:
